@@ -2131,6 +2131,25 @@ skip_false_if_block(bool consider_elifs) {
         level--;
       }
     } else {
+      if (c == '"' || c == '\'') {
+        // A string or character literal: what looks like a comment opener
+        // inside it is not one.  Skip to the closing quote, or to the end of
+        // the line if there is none (an apostrophe in discarded prose).
+        int quote = c;
+        c = get();
+        while (c != EOF && c != '\n' && c != quote) {
+          if (c == '\\') {
+            c = get();
+            if (c == EOF) {
+              break;
+            }
+          }
+          c = get();
+        }
+        if (c != quote) {
+          continue;
+        }
+      }
       c = skip_comment(get());
     }
   }
